@@ -676,6 +676,11 @@ def exec_split(job, base, d, t0, log, fail):
                 return (p, "multi", res)
             return (p, "timeout", None)
         parsed = _parse_cbmc_json(so)
+        if (parsed[0] is None or parsed[3] is None or not parsed[0]) and p is not None and len(p) == 1 and re.search(r"unexpected (root-obj expression|first operand to root-obj)|root-obj", so + se):
+            # z3 answered `sat` with an algebraic (irrational) model value; CBMC 6.11 cannot parse such a model and aborts.  The answer
+            # itself is `sat`: the property fails (no trace available)
+            q = p[0]
+            return (p, "ok", ({q["name"]: ("FAILURE", q.get("description", ""))}, {}, "z3: sat (model with algebraic numbers, not parseable by cbmc)", "failure"))
         if parsed[0] is None or parsed[3] is None:
             return (p, "error", (parsed[2] or "") + se[-500:])
         return (p, "ok", parsed)
